@@ -12,6 +12,29 @@ BASE = 'emsarray.conventions._base.Convention'
 PLOT = 'emsarray.plot'
 
 
+
+def _on_cells_only(ctx, fi, flow, ravel_call, rule: str, what: str) -> None:
+    """The variable flattened by `ravel_call` is known to lie on the default grid (the cells): a comparison of
+    self.get_grid_kind(<that variable>) with self.default_grid_kind dominates the call and a mismatch raises."""
+    from .common import guards as _g
+    g = _g(fi, ravel_call)
+    ok, why = False, f"guards before ravel: {g}"
+    for text, pol in g:
+        for a, b in ((' != self.default_grid_kind', False), (' == self.default_grid_kind', True)):
+            if text.endswith(a) and pol is b:
+                kind_name = text[:-len(a)]
+                # what the compared kind is the kind of
+                for n in walk_no_nested(fi.node):
+                    if isinstance(n, ast.Assign) and isinstance(n.targets[0], ast.Name) and n.targets[0].id == kind_name and isinstance(n.value, ast.Call) \
+                            and isinstance(n.value.func, ast.Attribute) and n.value.func.attr == 'get_grid_kind' and norm_text(n.value.func.value) == 'self' \
+                            and len(n.value.args) == 1 and flow.canon(n.value.args[0]) == flow.canon(ravel_call.args[0]):
+                        ok, why = True, f"{kind_name} = {norm_text(n.value)} compared with self.default_grid_kind before ravel"
+                if text.startswith('self.get_grid_kind(') and ravel_call.args and norm_text(ravel_call.args[0]) in text:
+                    ok, why = True, text
+    ctx.check(rule, ok, f"{what}: a variable on another grid (nodes, edges) is refused before it is flattened - flattened over its own grid and paired with the "
+              "cells by position it would silently give cell n the value of node n whenever the two grids have the same size", fi, ravel_call, construct=why)
+
+
 def run(ctx: Context) -> None:
     p = ctx.p
     ctx.rule('R19.1', "make_poly_collection: values are ravel(variable)[mask] and patches are polygons[mask] with the same self.mask; default colour limits are nanmin/nanmax of those masked values; leftover dimensions and array+data_array are refused before any artist is built", floor=8)
@@ -64,6 +87,13 @@ def run(ctx: Context) -> None:
                       and len(lo.args) == 1 and len(hi.args) == 1 and same(lo.args[0]) and same(hi.args[0])
                       and (f"'clim' in {kw_name}", False) in guards(mp, clim[0]))
         ctx.check('R19.1', ok, "default colour limits span exactly the plotted (masked) values; a caller's clim is kept", mp, clim[0] if clim else mp.node)
+        if clim:
+            gc = guards(mp, clim[0])
+            nonempty = any(pol and t.replace(' ', '') in (f"{norm_text(arr[0].value)}.size>0".replace(' ', ''), 'values.size>0', 'len(values)>0', 'values.size', 'values.size!=0') for t, pol in gc)
+            ctx.check('R19.1', nonempty, "the default limits are only computed when something is plotted: nanmin / nanmax raise for the empty array of a dataset where no cell has a polygon "
+                      "(which is plotted as an empty collection when no variable is given)", mp, clim[0], construct=f"clim guards: {gc}")
+        if ravels:
+            _on_cells_only(ctx, mp, flow, ravels[0], 'R19.1', "make_poly_collection pairs values with cell polygons")
         ok = len(ravels) == 1 and len(ravels[0].args) == 1 and flow.reaches(ravels[0].args[0], lambda n: isinstance(n, ast.Call) and (callee(ctx, mp, n) or '').endswith('name_to_data_array'))
         ctx.check('R19.1', ok, "the variable (by name or as an array, checked against the dataset) is flattened by the convention's ravel", mp, ravels[0] if ravels else mp.node)
         raises = [n for n in walk_no_nested(mp.node) if isinstance(n, ast.Raise)]
@@ -109,6 +139,8 @@ def run(ctx: Context) -> None:
         rv = [c for c in ravels if c.args and flow.reaches(c.args[0], lambda n: isinstance(n, ast.Name) and n.id == vp and any(d.kind == 'param' for d in flow.defs_of(n)))]
         ok_rav = len(ravels) == 2 and len(ru) == 1 and len(rv) == 1 and ru[0] is not rv[0]
         ctx.check('R19.3', ok_rav, "both components are flattened by the convention's ravel", mq, ravels[0] if ravels else mq.node)
+        if ru:
+            _on_cells_only(ctx, mq, flow, ru[0], 'R19.3', "make_quiver puts the arrows at the face centres")
         # values = (ravel(u).values, ravel(v).values) in that order
         va = None
         for n in walk_no_nested(mq.node):
@@ -193,6 +225,9 @@ _P = 'src/emsarray/plot.py'
 VARIANTS = [
     V('C19', 'values-unmasked', _B, "            values = data_array.values[self.mask]", "            values = data_array.values", 'R19.1'),
     V('C19', 'polygons-unmasked', _B, "        return polygons_to_collection(self.polygons[self.mask], **kwargs)", "        return polygons_to_collection([p for p in self.polygons if p is not None and p.is_valid], **kwargs)", 'R19.1'),
+    V('C19', 'poly-collection-any-grid-kind', _B, "            grid_kind = self.get_grid_kind(data_array)\n            if grid_kind != self.default_grid_kind:\n                raise ValueError(\n                    f\"Data array is defined on the {grid_kind} grid, \"", "            grid_kind = self.get_grid_kind(data_array)\n            if False:\n                raise ValueError(\n                    f\"Data array is defined on the {grid_kind} grid, \"", 'R19.1'),
+    V('C19', 'quiver-any-grid-kind', _B, "            grid_kind = self.get_grid_kind(u)\n            if grid_kind != self.default_grid_kind:", "            grid_kind = self.get_grid_kind(u)\n            if grid_kind is None:", 'R19.3'),
+    V('C19', 'clim-of-nothing', _B, "            if 'clim' not in kwargs and values.size > 0:", "            if 'clim' not in kwargs:", 'R19.1'),
     V('C19', 'clim-from-all-values', _B, "                kwargs['clim'] = (numpy.nanmin(values), numpy.nanmax(values))", "                kwargs['clim'] = (numpy.nanmin(data_array.values), numpy.nanmax(data_array.values))", 'R19.1'),
     V('C19', 'dimension-guard-removed', _B, "            if len(data_array.dims) > 1:\n                raise ValueError(\n                    \"Data array has too many dimensions - did you forget to \"\n                    \"select a single timestep or a single depth layer?\")\n", "", 'R19.1'),
     V('C19', 'verts-filtered', _P, "            for polygon in polygons\n        ],", "            for polygon in polygons\n            if polygon.area > 0\n        ],", 'R19.2'),
